@@ -237,10 +237,46 @@ func c18Frames(c *core.Case) {
 				return
 			}
 		}
+		// a frame that could not be sent leaves nothing behind: the write to a
+		// broken connection fails (at once, or after part of it), then another
+		// frame goes out on a healthy connection and must arrive as written
+		if i%4 == 0 {
+			_ = litefs.WriteStreamFrame(&c18FailWriter{okBytes: c.Rng.IntN(len(enc) + 1)}, f)
+			f2, typ2 := genFrame(c.Rng)
+			var buf2 bytes.Buffer
+			if err := litefs.WriteStreamFrame(&buf2, f2); err != nil {
+				c.Violate("C18/frame-encode-error", err.Error(), typ2)
+				return
+			}
+			var got litefs.StreamFrame
+			var err error
+			rd := bytes.NewReader(buf2.Bytes())
+			if guard(c, "ReadStreamFrame", typ2, func() { got, err = litefs.ReadStreamFrame(rd) }) {
+				return
+			}
+			c.Count("frames_after_failed_write", 1)
+			if err != nil || !reflect.DeepEqual(got, f2) || rd.Len() != 0 {
+				c.Violate("C18/frame-after-failed-write-differs/"+typ2, fmt.Sprintf("a %s frame could not be written to a broken connection; the %s frame written next to a healthy connection decoded to %T (%v) with %d bytes left over", typ, typ2, got, err, rd.Len()), map[string]any{"encoding_head": fmt.Sprintf("%x", buf2.Bytes()[:minInt(buf2.Len(), 64)])})
+				return
+			}
+		}
 		if i == 0 && c.Index < 6 {
 			c.Sample(map[string]any{"codec": "frame", "type": typ, "encoded_len": len(enc), "head": fmt.Sprintf("%x", enc[:minInt(len(enc), 32)])})
 		}
 	}
+}
+
+// c18FailWriter accepts okBytes bytes, then fails (a connection that went away).
+type c18FailWriter struct{ okBytes int }
+
+func (w *c18FailWriter) Write(p []byte) (int, error) {
+	if len(p) <= w.okBytes {
+		w.okBytes -= len(p)
+		return len(p), nil
+	}
+	n := w.okBytes
+	w.okBytes = 0
+	return n, io.ErrClosedPipe
 }
 
 func lenClass(n int) string {
